@@ -1,17 +1,24 @@
 from . import COMMON_TB, NOTE
 
 PROP = {
-    "modules": ["Proofs.C16"],
+    "modules": ["Proofs.C16", "Proofs.CaseLemmas"],
     "streams": [{"name": "strf"}],
     "rule": "strf: every string of length<=3 (quick) / 4 (thorough) over {a B space newline e-acute emoji < & \" % + ,} x every string "
             "filter x integers -3..12 x every string argument of length<=2 over the same alphabet (replace / replace_first: the "
             "replacement is one of '', e-acute, 'a&' or the pattern itself, and for receivers of four characters the pattern has "
-            "length<=1; truncate / truncatewords: the default ellipsis and four given ones); every rune of the modelled case "
-            "table; non-string receivers; random strings up to 200 bytes (raw bytes, all-plane UTF-8, entity/tag/escape-dense) with "
+            "length<=1; truncate / truncatewords: the default ellipsis and four given ones); upcase, downcase and capitalize on "
+            "single runes, alone and inside a string next to ASCII letters and invalid bytes: every rune U+0000..U+10FFFF and every block "
+            "of 256 consecutive runes as one string (thorough), or (quick) a stratified sample computed from unicode.ToUpper/ToLower/ToTitle "
+            "themselves - every rune one of them moves and its images, two runes either side of every point where the distance to the "
+            "image changes, the ends of the planes and of the surrogate gap, the awkward runes (U+00B5 U+00DF U+00FF U+0130 U+0131 "
+            "U+01C4..U+01CC U+023A U+023E U+1E9E U+2126 U+212A U+212B ...) and 2000 random others; non-string receivers; random strings up to 200 bytes (raw bytes, all-plane UTF-8, entity/tag/escape-dense) with "
             "boundary integers up to MaxInt64/MinInt64; a case is non-trivial when the filter changes its receiver; distinct by case line",
     "trusted_base": COMMON_TB + [
-        "Go's unicode case tables and html entity table are modelled only on the tables of Liquid/Unicode.lean and "
-        "StrF.entityLookup; outside them the model answers unmodelled (counted) and only the oracle checks the real code",
+        "Go's html entity table is modelled only on StrF.entityLookup (amp lt gt quot apos and numeric references); outside it the "
+        "model answers unmodelled (counted) and only the oracle checks the real code",
+        "the case mapping is the simple mapping of the Go standard library of the toolchain in use (Unicode 15.0.0 with go1.23): it is "
+        "not part of the repository under verification; a build with another toolchain has the tables of that toolchain, and the "
+        "theorems are about whatever tables translator T6 regenerated on the run",
     ],
     "assumptions": [
         "the models of Liquid/Filters/Str.lean describe filters/standard_filters.go after the fix patches D2, D3, D16 and "
@@ -25,9 +32,18 @@ PROP = {
 
 TEXT = {
     "text": "Theorems for every byte string (no length bound): append/prepend are concatenation and remove is replace with the "
-            "empty string by definition of the model (append_spec, prepend_spec, remove_spec: rfl); upcase/downcase are idempotent and "
-            "keep the character count, and capitalize upper-cases the first character only, whenever the model answers (every rune "
-            "concerned in the modelled case table: the _partial theorems, hypothesis `= some t`); "
+            "empty string by definition of the model (append_spec, prepend_spec, remove_spec: rfl); upcase, downcase and capitalize answer "
+            "on every byte string - every rune U+0000..U+10FFFF is looked up in the range tables of unicode.ToUpper / unicode.ToLower "
+            "that translator T6 regenerates from the toolchain, invalid bytes become U+FFFD (upcase_total, downcase_total, "
+            "capitalize_total); upcase and downcase are idempotent on every string (upcase_idem, downcase_idem: Greek, Cyrillic, "
+            "Latin Extended, Armenian, Georgian, Cherokee, Deseret, fullwidth forms, U+00B5 -> U+039C, U+00FF -> U+0178, dotted and "
+            "dotless i, the digraphs U+01C4..U+01CC, U+1E9E, Ohm, Kelvin and Angstrom signs included), keep the number of characters "
+            "(case_len) but not the number of bytes (case_changes_byte_length: U+023A, two bytes, lower-cases to U+2C65, three bytes), "
+            "map rune by rune (upcase_runes) to scalar values only (case_images_scalar); capitalize upper-cases - upper case, not title "
+            "case - the first character only (capitalize_spec); upcase after downcase after upcase is upcase rune-wise except on six "
+            "upper-case runes whose lower-case partner has another upper-case form, U+0130 U+03F4 U+1E9E U+2126 U+212A U+212B "
+            "(upper_lower_upper_except, and upper_lower_upper_fails: on each of the six the law does fail; the list is regenerated "
+            "and checked to be exact); "
             "strip/lstrip/rstrip remove exactly a prefix/suffix of white-space characters and leave none; replace(s,p,p)=s, "
             "remove never grows; split inverts join on a non-empty list of non-empty pieces that share no byte with a non-empty "
             "separator other than ' ' (for ' ': pieces free of ASCII white space), and join inverts split when the separator is not ' ' "
@@ -41,8 +57,10 @@ TEXT = {
             "real filters (run through the expression evaluator) on exhaustive small strings and random inputs each run, and an "
             "independent oracle checks every clause on the real results.",
     "design_ref": "DESIGN.md 6 C16",
-    "note": NOTE + "Case mapping outside ASCII/Latin-1/punctuation/emoji and named HTML entities other than amp lt gt quot apos are "
+    "note": NOTE + "Named HTML entities other than amp lt gt quot apos are "
             "outside the model (unmodelled, counted), and so are float receivers of string filters (StrF.recvToString answers none); there the "
-            "oracle alone checks the real code (for float receivers: the receiver-to-text oracle).",
+            "oracle alone checks the real code (for float receivers: the receiver-to-text oracle). The case mapping is Go's SIMPLE mapping, "
+            "rune to rune, as the code uses it: no special casing (upcase of U+00DF stays U+00DF, not SS), no locale (Turkish i), "
+            "no title case in capitalize; the theorems say what the filters do with it, not that it is the case mapping a reader expects.",
     "technique": "Lean 4 proof (induction over byte strings / runes) + model/implementation correspondence + implementation-side oracle",
 }
